@@ -163,6 +163,13 @@ pub proof fn lemma_wdev2_nonneg(x: Seq<real>, w: Seq<real>, m: real, k: int)
     }
 }
 
+// the sum of the weights does not depend on the data
+pub proof fn lemma_wpsum0_indep(x: Seq<real>, y: Seq<real>, w: Seq<real>, k: int)
+    requires 0 <= k <= w.len(), x.len() == w.len(), y.len() == w.len()
+    ensures wpsum(x, w, 0, k) == wpsum(y, w, 0, k)
+    decreases k
+{ if k > 0 { lemma_wpsum0_indep(x, y, w, k - 1); lemma_rpow_small(x[k - 1]); lemma_rpow_small(y[k - 1]); } }
+
 pub proof fn lemma_wpsum0_nonneg(x: Seq<real>, w: Seq<real>, k: int)
     requires 0 <= k <= w.len(), x.len() == w.len(), forall|i: int| 0 <= i < w.len() ==> #[trigger] w[i] >= 0real
     ensures wpsum(x, w, 0, k) >= 0real, k > 0 && w[k - 1] > 0real ==> wpsum(x, w, 0, k) > 0real
